@@ -336,6 +336,17 @@ theorem name_term_index_exec (e : LookupEnc) (v : String) :
     by_cases hq : i = e.lastReused + 1 <;> py_simp [h, hq, execLike]
   | error err => rw [ht] at h; py_simp [h, execLike]
 
+theorem datatype_term_index_exec (e : LookupEnc) (v : String) :
+    (Gen.LookupEncoder.encode_datatype_term_index v).exec e = execLike (e.datatypeTermIndex v) e := by
+  unfold Gen.LookupEncoder.encode_datatype_term_index LookupEnc.datatypeTermIndex
+  have h := term_index_exec e v
+  simp only [M.exec, ExceptT.run, StateT.run] at h
+  by_cases hz : e.lookup.maxSize = 0
+  · py_simp [hz, execLike]
+  · cases ht : e.termIndex v with
+    | ok p => obtain ⟨e', i⟩ := p; rw [ht] at h; py_simp [h, hz, execLike]
+    | error err => rw [ht] at h; py_simp [h, hz, execLike]
+
 theorem prefix_term_index_exec (e : LookupEnc) (v : String) :
     (Gen.LookupEncoder.encode_prefix_term_index v).exec e = execLike (e.prefixTermIndex v) e := by
   unfold Gen.LookupEncoder.encode_prefix_term_index LookupEnc.prefixTermIndex
